@@ -1,6 +1,9 @@
 """C08 — subscriber callbacks: exactly once, in order, after the work"""
 from harness import faults as FT
 
+# private-attribute groups (vlib/layout.py) the obligations of this module depend on
+LAYOUT = ['manager', 'coord', 'task', 'bex', 'tasksem', 'sws']
+
 EXPLANATION = (
     'C08: recording subscribers (two per transfer, the first one raising in on_done for downloads) stamp every '
     'callback with the logical clock shared with the fake S3 / file system; every transfer type runs with one fault at '
